@@ -433,3 +433,35 @@ def rule_unpermute(ctx) -> RuleResult:
                            f"(out[{P}] = ...) or np.argsort({P})")
     res.inst(f"{n_perm} argsort permutations examined", "count")
     return res
+
+
+# ---------------------------------------------------------------------------------------------
+# R-PAIRS[broadcast] (C08, C19): labels with size-1 dimensions are brought to the array's shape before a partial reduction offsets them.
+# `_assert_by_is_aligned` accepts size-1 dimensions in the labels.  When only some label dimensions are reduced, every kept slice gets its
+# own offset codes (offset_labels), which needs the labels at full size; without the broadcast the flattened codes are shorter than the
+# flattened values (AssertionError in the flox engine, a numpy_groupies shape error otherwise).
+def rule_pairs_broadcast(ctx) -> RuleResult:
+    res = RuleResult("R-PAIRS[broadcast]", "labels are broadcast to the array's trailing shape before a partial-axis reduction", min_instances=1)
+    f = ctx.prog.func("core.groupby_reduce")
+    arr = f.params[0]
+    found = False
+    for st in walk_own(f.node):
+        if not isinstance(st, ast.If):
+            continue
+        moves = [c for b in st.body for c in ast.walk(b) if isinstance(c, ast.Call) and norm(c.func) == "_move_reduce_dims_to_end" and c.args
+                 and isinstance(c.args[0], ast.Name) and c.args[0].id != arr]
+        if not moves or ".ndim" not in norm(st.test):
+            continue
+        found = True
+        lab = moves[0].args[0].id
+        bc = [c for b in st.body for c in ast.walk(b) if isinstance(c, ast.Call) and norm(c.func).endswith("broadcast_to") and c.args
+              and isinstance(c.args[0], ast.Name) and c.args[0].id == lab and f"{arr}.shape" in norm(c) and c.lineno < moves[0].lineno]
+        res.inst(f"groupby_reduce: partial-axis branch '{norm(st.test)[:30]}': labels '{lab}' broadcast to {arr}.shape[...] before the axes are moved: {bool(bc)}", "partial")
+        if not bc:
+            res.report("core.groupby_reduce|labels-not-broadcast", f.where(moves[0]), f.qualname,
+                       f"in the partial-axis branch the labels '{lab}' are moved and offset per kept slice without being broadcast to the array's shape: labels "
+                       "with a size-1 dimension (accepted by _assert_by_is_aligned) give fewer codes than values -- AssertionError with engine='flox', a "
+                       "shape error from numpy_groupies otherwise")
+    if not found:
+        raise AnalysisError("groupby_reduce: the partial-axis branch (_move_reduce_dims_to_end on the labels under an .ndim test) was not found (anchor)")
+    return res
